@@ -1,2 +1,7 @@
 import Gnmi.Basic
 import Gnmi.Model.CTree
+import Gnmi.Model.CTreeRun
+import Gnmi.Model.Cache
+import Gnmi.Spec.PMap
+import Gnmi.Lemmas.CTree
+import Gnmi.Props.C09
